@@ -84,17 +84,26 @@ fn gen11(ch: &mut Chooser, p: &P11) -> Case11 {
         1 => (TO_FUTURE, " unwrap-block"),
         _ => (TO_EXPIRED, " unwrap-block skip"),
     };
+    // attribute order: the strategy flag after or before the condition
+    let flag_first = ch.flag();
+    let open_u = |to: &str, extra: &str| -> String {
+        if flag_first {
+            format!("<tl{extra} to=\"{to}\">")
+        } else {
+            open_tl(to, extra)
+        }
+    };
     let form = ch.choose(p.max_m + 2); // 0..=max_m: block with m lines; max_m+1: single line
     let mut m_total = 0;
     let mut blank_wrapper = false;
     let single = form == p.max_m + 1;
     let mut nested_ready = false;
     if single {
-        lines.push(format!("{tind}{} {}(); </tl>", open_tl(attrs.0, attrs.1), id()));
+        lines.push(format!("{tind}{} {}(); </tl>", open_u(attrs.0, attrs.1), id()));
         removed.push(false);
     } else {
         let m = form;
-        lines.push(format!("{tind}{}", open_tl(attrs.0, attrs.1)));
+        lines.push(format!("{tind}{}", open_u(attrs.0, attrs.1)));
         let open_idx = lines.len() - 1;
         removed.push(false);
         // nested range element among the inner lines (never touching the wrapper lines)
@@ -327,7 +336,12 @@ fn gen_blk(ch: &mut Chooser, p: &P12, unit: &str, t_units: usize, depth: usize, 
 }
 
 fn render_blk(b: &Blk, out: &mut Vec<String>) {
-    out.push(format!("{}{}", b.t, open_tl(TO_EXPIRED, " unwrap-block")));
+    // attribute order alternates with the block's identifiers (flag before / after the condition)
+    if b.wid.1.len() % 2 == 0 {
+        out.push(format!("{}<tl unwrap-block to=\"{TO_EXPIRED}\">", b.t));
+    } else {
+        out.push(format!("{}{}", b.t, open_tl(TO_EXPIRED, " unwrap-block")));
+    }
     // every other wrapper line ends in a multi-byte character
     if b.wid.0.len() % 2 == 0 {
         out.push(format!("{}if ({}) {{ // 開", b.t, b.wid.0));
@@ -452,17 +466,20 @@ fn depth_of(b: &Blk) -> usize {
 fn gen12(ch: &mut Chooser, p: &P12) -> Case12 {
     let unit = p.units[ch.choose(p.units.len())];
     let t_units = ch.choose(3);
-    // 0..2 code lines before the block, or (3) an earlier removal: code, a ready block, code
-    let before = ch.choose(4);
+    // 0..2 code lines before the block, (3) an earlier removal: code, a ready block, code, or
+    // (4) a ready block directly above the unwrap-block (no line between)
+    let before = ch.choose(5);
     let mut ctr = 0usize;
     let blk = gen_blk(ch, p, unit, t_units, 1, &mut ctr);
     let mut lines: Vec<String> = vec![];
-    if before == 3 {
+    if before == 3 || before == 4 {
         lines.push("P0();".into());
         lines.push(open_tl(TO_EXPIRED, ""));
         lines.push("  earlier();".into());
         lines.push("</tl>".into());
-        lines.push("P1();".into());
+        if before == 3 {
+            lines.push("P1();".into());
+        }
     } else {
         for i in 0..before {
             lines.push(format!("P{i}();"));
@@ -786,7 +803,7 @@ pub fn run(r: &Report, prop: &str) {
             r.expect_count("C11 layouts (parallel split vs single-threaded count)", single, counted);
         }
         "C12" => {
-            r.set_rule("all unwrap layouts: indentation unit {2 spaces, 4 spaces, tab} x tag indent T 0..2 units x first inner line indent F in max(T-1,0)..T+2 x 1..K further inner lines each {code at indent 0..F+E units, multi-byte code, blank, nested ready/pending default-strategy element, nested unwrap-block (to depth D)} x {0..2 lines, or an earlier removal} before the block, whitespace-only body lines; expectation per surviving inner line from the dedent rule (shift = max(F-T,0), never left of column T, whitespace only), nested blocks by sequential composition, asserted where inside-out and outside-in composition agree; non-trivial = distinct layouts with a positive shift and a line indented less than F or T, or depth >= 2, or block on line 1");
+            r.set_rule("all unwrap layouts: indentation unit {2 spaces, 4 spaces, tab} x tag indent T 0..2 units x first inner line indent F in max(T-1,0)..T+2 x 1..K further inner lines each {code at indent 0..F+E units, multi-byte code, blank, nested ready/pending default-strategy element, nested unwrap-block (to depth D)} x {0..2 lines, an earlier removal, or a removed block directly above} before the block, both attribute orders, whitespace-only body lines; expectation per surviving inner line from the dedent rule (shift = max(F-T,0), never left of column T, whitespace only), nested blocks by sequential composition, asserted where inside-out and outside-in composition agree; non-trivial = distinct layouts with a positive shift and a line indented less than F or T, or depth >= 2, or block on line 1");
             let p = match r.tier {
                 Tier::Quick => P12 { units: vec!["  ", "\t"], max_further: vec![2, 2], max_depth: 2, max_extra_indent: 1, mb: false },
                 Tier::Thorough => P12 { units: vec!["  ", "    ", "\t"], max_further: vec![3, 2, 1], max_depth: 3, max_extra_indent: 2, mb: true },
